@@ -252,6 +252,75 @@ func c14different(g *docgen, c c14case) []c14case {
 		m.l = append(m.l, dStr("added-value"))
 		return true
 	})
+	// map-form matrices: a value appended to one dimension (each dimension in turn, the anonymous one included),
+	// a dimension added, a `with` value of an adjustment changed (each key in turn)
+	setupOf := func(n *c14case) *dv {
+		m := n.doc.get("matrix")
+		if m == nil || m.kind != 'm' {
+			return nil
+		}
+		su := m.get("setup")
+		if su == nil || su.kind != 'm' {
+			return nil
+		}
+		return su
+	}
+	for di := 0; di < 4; di++ {
+		di := di
+		add(func(n *c14case) bool {
+			su := setupOf(n)
+			if su == nil || di >= len(su.m) || su.m[di].v.kind != 'l' {
+				return false
+			}
+			su.m[di].v.l = append(su.m[di].v.l, dStr("added-value"))
+			return true
+		})
+	}
+	add(func(n *c14case) bool {
+		su := setupOf(n)
+		if su == nil || su.has("newdim") {
+			return false
+		}
+		su.set("newdim", dList(dStr("x")))
+		return true
+	})
+	for ai := 0; ai < 2; ai++ {
+		for wi := 0; wi < 3; wi++ {
+			ai, wi := ai, wi
+			add(func(n *c14case) bool {
+				m := n.doc.get("matrix")
+				if m == nil || m.kind != 'm' {
+					return false
+				}
+				ad := m.get("adjustments")
+				if ad == nil || ad.kind != 'l' || ai >= len(ad.l) || ad.l[ai].kind != 'm' {
+					return false
+				}
+				w := ad.l[ai].get("with")
+				if w == nil {
+					return false
+				}
+				switch w.kind {
+				case 'm':
+					if wi >= len(w.m) {
+						return false
+					}
+					if _, ok := sprintDv(w.m[wi].v); !ok {
+						return false
+					}
+					w.m[wi].v = dStr("changed-with-value")
+					return true
+				case 's', 'i', 'b':
+					if wi != 0 {
+						return false
+					}
+					ad.l[ai].set("with", dStr("changed-with-value"))
+					return true
+				}
+				return false
+			})
+		}
+	}
 	// a plugin's config replaced by a different "zero-looking" config: null, false, 0, "" are all different contents
 	for _, alt := range []*dv{dNull(), dBool(false), dInt(0), dStr(""), dBool(true)} {
 		alt := alt
